@@ -140,6 +140,7 @@ func (c *c19Ctx) genScenario(seed uint64, progs []*c19Prog) *Scenario {
 	if s.Shape == "d-src-dst" {
 		s.Bulk, s.AsciiHead, s.Light = 0, 0, true
 	}
+	s.BOM = r.Chance(1, 30) // editors on Windows like to add one; gosk reports a parse error for it today
 	s.CRLF = r.Chance(1, 10) && s.RawSrc == ""
 	if !s.CRLF && s.RawSrc == "" && r.Chance(1, 12) {
 		s.MixedEOL = r.U64() | 1
